@@ -422,7 +422,7 @@ func signedE2(t *engine.T, fms map[string]*family, p digestPair, m signMode, n i
 // signedE3 enumerates every 1-deviation mutant of one SignedData artefact. Oracle: a mutant that parses and
 // verifies carries, for every SignerInfo it verified, exactly an original signer's (authenticated attributes,
 // signature value, signer key / with a trust store the signer certificate) and the original content.
-func signedE3(t *engine.T, f *family, shape string, m signMode, content []byte, build func() (art, supplied []byte, err error), cfcaAgree bool) {
+func signedE3(t *engine.T, f *family, shape string, m signMode, content []byte, build func() (art, supplied []byte, err error), cfcaAgree bool, trustModes []bool) {
 	n := len(content)
 	art, supplied, err := build()
 	if err != nil {
@@ -458,7 +458,7 @@ func signedE3(t *engine.T, f *family, shape string, m signMode, content []byte, 
 			p7.Content = supplied
 		}
 		plainFailed := false
-		for _, withTrust := range []bool{false, true} {
+		for _, withTrust := range trustModes {
 			var pool *smx509.CertPool
 			tn := "no-truststore"
 			if withTrust {
